@@ -110,17 +110,12 @@ def repo_file_text(path):
 # queries through the real CLI action
 # ------------------------------------------------------------------------------------------------
 
-RESERVED_SANITISED = {"e", "pi", "oo", "zoo", "nan", "true", "false", "if", "else", "elif", "end", "while", "i"}
-
-
-def run_query(text=None, path=None, kind="ei", query="", nmax=4, repair=None):
+def run_query(text=None, path=None, kind="ei", query="", nmax=4):
     """`polar.py file.bif --exact_inference q` / `--sample_time_until q`, in-process.
 
     Returns the generated program, the name mapping, the moments handed to `generate_result` evaluated at
     n = 0..nmax, the value `generate_result` prints (tagged exact rational / symbolic / undefined) and the
-    printed text.
-    repair (list): "names": sanitised names that are reserved words of Polar get a suffix (attribution of
-    F31); "remainder": the omitted last probability of a choice is computed exactly (attribution of F33)."""
+    printed text."""
     from harness.tasks.analyze import to_rational, eval_closed_form, _err
     import bayesnet.code_generator as cgmod
     import bayesnet.query.exact_inference_query as eimod
@@ -130,8 +125,6 @@ def run_query(text=None, path=None, kind="ei", query="", nmax=4, repair=None):
 
     rec = {"moments": [], "limit_in": [], "limit_out": [], "code": None, "names": None}
     orig_gen = cgmod.CodeGenerator.generate_code
-    # (names that also end in two underscores are not mangled)
-    orig_map = cgmod.CodeGenerator.__dict__.get("__generate_mapping__")
     orig_ei, orig_st = eimod.transform_to_after_loop, stmod.transform_to_after_loop
     orig_res_ei = eimod.ExactInferenceQuery.generate_result
     orig_res_st = stmod.SamplingTimeQuery.generate_result
@@ -156,40 +149,7 @@ def run_query(text=None, path=None, kind="ei", query="", nmax=4, repair=None):
             return orig(self, results)
         return f
 
-    def repaired_mapping(self):
-        orig_map(self)
-        taken = set(self.polar_variable_names.values())
-        for k, v in list(self.polar_variable_names.items()):
-            if v in RESERVED_SANITISED or v == "n":
-                nv = v + "_v"
-                while nv in taken:
-                    nv += "v"
-                taken.add(nv)
-                self.polar_variable_names[k] = nv
-
-    repair = [repair] if isinstance(repair, str) else list(repair or [])
-    import inputparser.structure_transformer as stmod_parser
-    orig_cat = stmod_parser.StructureTransformer._assign_categorical
-
-    def exact_categorical(self, args):
-        """all literal probabilities of a choice, and the omitted last one, as exact rationals"""
-        children = list(args[2].children)
-        try:
-            lits = [Fr(str(children[i])) for i in range(1, len(children), 2)]
-
-            def tok(like, f):
-                lit = f"{f.numerator}/{f.denominator}"
-                return like.update(value=lit) if hasattr(like, "update") else lit
-            for n_, i in enumerate(range(1, len(children), 2)):
-                children[i] = tok(children[i], lits[n_])
-            if len(lits) < (len(children) + 1) // 2 and lits:
-                children.append(tok(children[1], Fr(1) - sum(lits)))
-            args[2].children = children
-        except Exception:  # symbolic probabilities: leave the code's own treatment
-            pass
-        return orig_cat(self, args)
-
-    res = {"kind": kind, "query": query, "repair": repair}
+    res = {"kind": kind, "query": query}
     td = None
     argv0 = list(sys.argv)
     try:
@@ -199,10 +159,6 @@ def run_query(text=None, path=None, kind="ei", query="", nmax=4, repair=None):
             with open(path, "w") as fh:
                 fh.write(text)
         cgmod.CodeGenerator.generate_code = gen_code
-        if "remainder" in repair:
-            stmod_parser.StructureTransformer._assign_categorical = exact_categorical
-        if "names" in repair and orig_map is not None:
-            setattr(cgmod.CodeGenerator, "__generate_mapping__", repaired_mapping)
         eimod.transform_to_after_loop = wrap_limit(orig_ei)
         stmod.transform_to_after_loop = wrap_limit(orig_st)
         eimod.ExactInferenceQuery.generate_result = wrap_result(orig_res_ei)
@@ -225,10 +181,7 @@ def run_query(text=None, path=None, kind="ei", query="", nmax=4, repair=None):
         res["printed"] = buf.getvalue()[-1500:]
     finally:
         sys.argv = argv0
-        stmod_parser.StructureTransformer._assign_categorical = orig_cat
         cgmod.CodeGenerator.generate_code = orig_gen
-        if orig_map is not None:
-            setattr(cgmod.CodeGenerator, "__generate_mapping__", orig_map)
         eimod.transform_to_after_loop = orig_ei
         stmod.transform_to_after_loop = orig_st
         eimod.ExactInferenceQuery.generate_result = orig_res_ei
